@@ -2,7 +2,6 @@
    forms, gen/FormulasPairs.v). *)
 From Coq Require Import Reals List Arith Bool ZArith QArith Qreals Lia Lra Psatz.
 From Coquelicot Require Import Coquelicot.
-From Interval Require Import Tactic.
 From PA Require Import model.Poly model.AbelPoly proofs.AbelPolyAlg proofs.AbelPolyInt proofs.PolyTop proofs.PolyPiecewise proofs.PairsClosed gen.FormulasPairs.
 Import ListNotations.
 Open Scope R_scope.
@@ -71,9 +70,3 @@ Proof.
       assert (sigma ^ 2 <> 0) by (apply pow_nonzero; auto). field. auto.
     + simpl. rewrite Rmult_1_r, sqrt_sqrt; auto. nra.
 Qed.
-
-(* 2 int_0^6 exp(-t^2) dt encloses sqrt(pi) (the tail beyond 6 is < 1e-16; the
-   identity with the improper integral is trusted) *)
-Lemma gauss_integral_enclosure :
-  Rabs (2 * RInt (fun t => exp (- (t * t))) 0 6 - sqrt PI) <= 1 / 1000000000000.
-Proof. integral with (i_prec 60, i_fuel 400, i_degree 12). Qed.
